@@ -7,6 +7,9 @@ import (
 	"encoding/json"
 	"fmt"
 	"net/http"
+	"os"
+	"path"
+	"path/filepath"
 	"sort"
 	"strings"
 	"testing"
@@ -64,6 +67,10 @@ type Case struct {
 	Server  string  `json:"server"` // webdav | caldav | carddav | principal
 	Colls   []Coll  `json:"colls,omitempty"`
 	Tree    []Obj   `json:"tree,omitempty"` // webdav
+	// Local: 0 = the tree is served from the in-memory FileSystem double; 1 = materialised in a temporary directory and
+	// served by webdav.LocalFileSystem; 2 = likewise, and every collection without members is a symbolic link to an
+	// (empty) directory outside the served one (after C11-s17)
+	Local int `json:"local,omitempty"`
 	Target  string  `json:"target"`         // request path
 	Form    string  `json:"form"`           // prop | propname | allprop | empty | none
 	Names   []PName `json:"names,omitempty"`
@@ -124,6 +131,7 @@ type world struct {
 	// over the same backend: relation (6), a handler that has answered before answers like one that has not
 	perturb func()
 	fresh   func() http.Handler
+	cleanup func()
 	// all resources by level
 	scope func(target, depth string) (res []resource, countOnly bool, known bool)
 }
@@ -276,6 +284,57 @@ func build(c Case) *world {
 				}
 			}
 		}
+		if c.Local > 0 {
+			// the in-memory double stays the model of names, kinds and scope; the answers come from the real directory
+			base, err := os.MkdirTemp("", "c11local")
+			if err != nil {
+				panic(err)
+			}
+			w.cleanup = func() { os.RemoveAll(base) }
+			root, outside := filepath.Join(base, "root"), filepath.Join(base, "outside")
+			os.MkdirAll(root, 0o755)
+			os.MkdirAll(outside, 0o755)
+			n := 0
+			var mk func(dir string, l []Obj)
+			mk = func(dir string, l []Obj) {
+				for _, o := range l {
+					p := filepath.Join(dir, o.Name)
+					switch {
+					case o.IsDir && len(o.Kids) == 0 && c.Local == 2:
+						n++
+						t := filepath.Join(outside, fmt.Sprintf("t%d", n))
+						os.MkdirAll(t, 0o755)
+						if err := os.Symlink(t, p); err != nil {
+							panic(err)
+						}
+					case o.IsDir:
+						os.MkdirAll(p, 0o755)
+						mk(p, o.Kids)
+					default:
+						if err := os.WriteFile(p, []byte("x"), 0o644); err != nil {
+							panic(err)
+						}
+						os.Truncate(p, o.Length%4096)
+						if o.MTime != 0 {
+							os.Chtimes(p, mt(o.MTime), mt(o.MTime))
+						}
+					}
+				}
+			}
+			mk(root, c.Tree)
+			lfs := webdav.LocalFileSystem(root)
+			w.h = &webdav.Handler{FileSystem: lfs}
+			w.fresh = func() http.Handler { return &webdav.Handler{FileSystem: webdav.LocalFileSystem(root)} }
+			w.perturb = func() {
+				for k, f := range fs.Files {
+					if !f.Info.IsDir {
+						p := filepath.Join(root, filepath.FromSlash(k))
+						os.WriteFile(p, []byte("changed content"), 0o644)
+						os.Chtimes(p, mt(1600000000), mt(1600000000))
+					}
+				}
+			}
+		}
 		w.scope = func(target, depth string) ([]resource, bool, bool) {
 			f := fs.Files[target]
 			if f == nil {
@@ -299,7 +358,7 @@ func build(c Case) *world {
 					if !fi.ModTime.IsZero() {
 						lo = append(lo, dn("getlastmodified"))
 					}
-					if fi.MIMEType != "" {
+					if fi.MIMEType != "" && c.Local == 0 {
 						lo = append(lo, dn("getcontenttype"))
 					}
 				}
@@ -409,7 +468,26 @@ type found struct {
 
 // read parses and structurally validates a 207 answer; returns per-href the
 // elements found (name -> occurrences).
+// cleanHrefs is set while a case served by LocalFileSystem is evaluated: hrefs are compared after dot-segment and
+// trailing-slash removal (the statement fixes which resources answer, not how their hrefs are spelled)
+var cleanHrefs bool
+
 func read(resp cfs.Resp, cls string) (map[string]map[vx.Name][]found, []string, vev.Outcome) {
+	got, order, o := readRaw(resp, cls)
+	if cleanHrefs && o.OK() {
+		g2 := map[string]map[vx.Name][]found{}
+		for k, v := range got {
+			g2[path.Clean(k)] = v
+		}
+		got = g2
+		for i := range order {
+			order[i] = path.Clean(order[i])
+		}
+	}
+	return got, order, o
+}
+
+func readRaw(resp cfs.Resp, cls string) (map[string]map[vx.Name][]found, []string, vev.Outcome) {
 	if resp.Panic != nil {
 		return nil, nil, dev(cls+"|panic", "panic: %v", resp.Panic)
 	}
@@ -456,8 +534,12 @@ func read(resp cfs.Resp, cls string) (map[string]map[vx.Name][]found, []string, 
 func evaluate(c Case) (vev.Outcome, error) {
 	setLayout(c.Alt)
 	chunkedBodies = c.Chunked
-	defer func() { chunkedBodies = false }()
+	cleanHrefs = c.Local > 0
+	defer func() { chunkedBodies, cleanHrefs = false, false }()
 	w := build(c)
+	if w.cleanup != nil {
+		defer w.cleanup()
+	}
 	scope, countOnly, known := w.scope(c.Target, c.Depth)
 	if !known {
 		return vev.Outcome{}, fmt.Errorf("target %q is not a resource of the layout", c.Target)
@@ -477,6 +559,14 @@ func evaluate(c Case) (vev.Outcome, error) {
 	got, order, o := read(resp, cls)
 	if !o.OK() {
 		return o, nil
+	}
+	if c.Local > 0 {
+		// the statement fixes which resources answer, not how LocalFileSystem spells their hrefs (it names its root
+		// "/."): both sides are compared after dot-segment and trailing-slash removal; two responses for one resource
+		// still show as a repeated entry
+		for i := range scope {
+			scope[i].path = path.Clean(scope[i].path)
+		}
 	}
 	// (3) scope
 	if countOnly {
@@ -791,7 +881,15 @@ func nontrivial(c Case, w *world) bool {
 
 func run(t *testing.T, rt *rapid.T, c Case) {
 	w := build(c)
-	rec.Case(c.Server+"/"+c.Form+"/depth="+dflt(c.Depth), nontrivial(c, w), mustJSON(c), func() any { return c })
+	nt := nontrivial(c, w)
+	if w.cleanup != nil {
+		w.cleanup()
+	}
+	srv := c.Server
+	if c.Local > 0 {
+		srv = fmt.Sprintf("webdav-local%d", c.Local)
+	}
+	rec.Case(srv+"/"+c.Form+"/depth="+dflt(c.Depth), nt, mustJSON(c), func() any { return c })
 	o, err := evaluate(c)
 	if err != nil {
 		rt.Fatalf("harness: %v", err)
@@ -812,6 +910,19 @@ func TestAReplay(t *testing.T) {
 	})
 }
 
+// distinct names whose namespace and local part concatenate to the same text, or that differ from a known property
+// only in where the namespace ends (after C11-s18): each is a property of its own
+var twinPool = [][2]PName{
+	{{"urn:x:a", "bc", 0}, {"urn:x:ab", "c", 0}},
+	{{"urn:x", "bar", 0}, {"urn:", "xbar", 0}},
+	{{vdav.NSDAV, "getetag", 0}, {vdav.NSDAV + "get", "etag", 0}},
+	{{vdav.NSDAV, "resourcetype", 0}, {vdav.NSDAV + "resource", "type", 0}},
+	{{vdav.NSCal, "calendar-description", 0}, {vdav.NSCal + "calendar-", "description", 0}},
+	{{vdav.NSCard, "addressbook-description", 0}, {vdav.NSCard + "addressbook-", "description", 0}},
+	{{"urn:x", "foo", 0}, {"urn:x ", "foo", 0}},
+	{{"urn:x", "bar", 0}, {"URN:X", "bar", 0}},
+}
+
 func TestPropfind(t *testing.T) {
 	if vev.ReplayFile() != "" {
 		t.Skip()
@@ -821,6 +932,7 @@ func TestPropfind(t *testing.T) {
 		switch c.Server {
 		case "webdav":
 			c.Tree = genTree(rt, 2)
+			c.Local = rapid.SampledFrom([]int{0, 0, 1, 2, 2}).Draw(rt, "local")
 		case "caldav", "carddav":
 			c.Colls = genColls(rt)
 		}
@@ -839,6 +951,14 @@ func TestPropfind(t *testing.T) {
 					pn.Fill = rapid.IntRange(1, 3).Draw(rt, "fill")
 				}
 				c.Names = append(c.Names, pn)
+			}
+			if rapid.IntRange(0, 4).Draw(rt, "twins?") == 0 {
+				tw := rapid.SampledFrom(twinPool).Draw(rt, "twins")
+				if rapid.Bool().Draw(rt, "twins-swapped") {
+					tw[0], tw[1] = tw[1], tw[0]
+				}
+				at := rapid.IntRange(0, len(c.Names)).Draw(rt, "twins-at")
+				c.Names = append(c.Names[:at:at], append([]PName{tw[0]}, append(append([]PName{}, c.Names[at:]...), tw[1])...)...)
 			}
 		}
 		run(t, rt, c)
